@@ -6,7 +6,7 @@
    `Shape` is computed from the grammar value generated from gsd.pest (GsdShape.child_rx); the correspondence
    driver checks `shapeb` on every pair tree the real pest parser produced and compares `interp` on that real
    tree with the real parser's result. *)
-From PB Require Import Common GsdGrammar GsdTables GsdInterp GsdShape GsdRender Peg C19Shape C19Proofs C19Fidelity C19Peg.
+From PB Require Import Common GsdGrammar GsdTables GsdInterp GsdShape GsdRender Peg C19Shape C19Proofs C19Fidelity C19Peg C19File C19Fragments.
 
 (* ------------------------------------------------------------------------------------------ (A) no panic *)
 
@@ -156,6 +156,100 @@ Example C19_peg_example :
       match interp t with
       | POk (d, _) => d_num d NF_gsd_revision = 31 /\ d_str d SF_vendor = [97; 98]
       | _ => False
+      end
+  | _ => False
+  end.
+Proof. vm_compute. repeat split; reflexivity. Qed.
+
+(* ========================================================================================== (B) fidelity, whole files
+
+   A file is a list of WRITTEN statements (GsdRender.wstmt) of every kind, in any order: settings `Key[(n)] = value`,
+   PrmText, ExtUserPrmData, Unit_Diag_Area, Module, SlotDefinition, ignored blocks.  Numbers are digit strings
+   (decimal, 0x-hexadecimal in either letter case, leading zeros, a minus sign where the grammar allows one), strings
+   are contents cut by any line continuation markers, keys and type names are any spelling that lower-cases to the
+   parser's key.  `file_tree` is the pair tree pest delivers for such a file (the driver checks on every rendered
+   file of a run that the REAL pair tree is file_tree of its decoded statements and that the hypotheses hold).
+   `file_okb` = the file is well formed: values within the types of their fields, references defined before use,
+   legacy parameter data within its declared length, string contents without a back slash directly before CR/LF
+   (that would BE a continuation marker), data type names known, no index on plain keys. *)
+
+(* what the statements say, read directly from the written values (no tree, no parsing), is what the
+   interpretation of the pair tree returns - description and number of warnings *)
+Theorem C19_roundtrip_file : forall (pre mk : str) (stmts : list wstmt),
+  file_okb stmts = true -> interp (file_tree pre mk stmts) = file_says stmts.
+Proof. exact roundtrip_file. Qed.
+Print Assumptions C19_roundtrip_file.
+
+(* (1) identification data, speeds (*_supp), response times (MaxTsdr_*), sizes, flags, Modular_Station, Max_Module:
+   in ANY well-formed file (whatever other statements surround them) in which no scalar field is written twice,
+   every such setting arrives exactly as written, the supported speeds are the or of the non-zero *_supp settings,
+   everything not written keeps its default (Max_Module: 1, and 1 for a compact station whatever was written). *)
+Theorem C19_roundtrip_scalars : forall stmts : list wstmt,
+  file_okb stmts = true -> nodupb (set_targets (sets_of stmts)) = true ->
+  exists d w, file_says stmts = POk (d, w) /\
+    (forall x, In (WSetS x) stmts -> set_says d x) /\
+    d_speeds d = speeds_said (sets_of stmts) /\
+    (forall f, ~ In (TNum f) (set_targets (sets_of stmts)) -> d_num d f = if nfield_eqb f NF_max_modules then 1 else nfield_default f) /\
+    (forall f, ~ In (TStr f) (set_targets (sets_of stmts)) -> d_str d f = []) /\
+    (forall f, ~ In (TFlag f) (set_targets (sets_of stmts)) -> d_flag d f = false).
+Proof. exact roundtrip_scalars. Qed.
+Print Assumptions C19_roundtrip_scalars.
+
+(* (2) PrmText blocks and ExtUserPrmData definitions, (3) station-level Ext_User_Prm_Data_Const/_Ref and legacy
+   User_Prm_Data[_Len], (4a) modules: in ANY well-formed file whose PrmText ids and ExtUserPrmData ids are unique,
+   - a reference to a definition id means the definition block with that id: name, data type (incl. Bit(n) and
+     BitArea(a-b)), default, range or value set, Changeable/Visible and - for a Prm_Text_Ref - the table of the
+     PrmText block with that id (wdef_den),
+   - the station's user parameter data is exactly the Ext_ constants and resolved references in file order (length 0)
+     if any Ext_ keyword occurs, otherwise the last User_Prm_Data_Len and every User_Prm_Data line (prm_said),
+   - the modules are exactly the Module blocks in file order: name, configuration bytes, reference number, Info_Text,
+     Ext_Module_Prm_Data_Len, constants and resolved references (wmodule_den). *)
+Theorem C19_roundtrip_prm_modules : forall stmts : list wstmt,
+  file_okb stmts = true -> ids_unique stmts = true ->
+  exists d w, file_says stmts = POk (d, w) /\
+    (forall id es, In (WText id es) stmts -> zmap_get (wnum_value id) (texts_of stmts) = Some (table_of es)) /\
+    (forall x, In (WDef x) stmts ->
+       zmap_get (wnum_value (wd_id x)) (defs_of stmts) = Some (wdef_den (texts_of stmts) x)) /\
+    d_prm d = prm_said (defs_of stmts) (prmlines_of stmts) /\
+    d_modules d = map (wmodule_den (defs_of stmts)) (modules_of stmts).
+Proof. exact roundtrip_prm_modules. Qed.
+Print Assumptions C19_roundtrip_prm_modules.
+
+(* (4b) slots - PARTIAL: restricted to files in which no Module block follows a SlotDefinition block (the parser
+   resolves a slot against the modules defined before it; C19_roundtrip_file covers the other layouts, without a
+   closed form).  Then every slot is exactly: name, number, the first module with the default reference, and the
+   modules found for the allowed references - the written set in its order, or the range in ascending order. *)
+Theorem C19_roundtrip_slots_partial : forall stmts : list wstmt,
+  file_okb stmts = true -> modules_first stmts = true ->
+  exists d w, file_says stmts = POk (d, w) /\
+    map Some (d_slots d) = map (slot_den (d_modules d)) (slots_of stmts).
+Proof. exact roundtrip_slots. Qed.
+Print Assumptions C19_roundtrip_slots_partial.
+
+(* non-vacuity: a file with every proved fragment; parsed by the PEG model, decoded, all hypotheses hold, the tree is
+   file_tree of the decoded statements, and the description contains what was written *)
+Definition ex_file : str :=
+  [35; 80; 114; 111; 102; 105; 98; 117; 115; 95; 68; 80; 13; 10; 77; 111; 100; 117; 108; 97; 114; 95; 83; 116; 97; 116; 105; 111; 110; 32; 61; 32; 49; 32; 59; 32; 109; 111; 100; 117; 108; 97; 114; 13; 10; 77; 97; 120; 95; 77; 111; 100; 117; 108; 101; 32; 61; 32; 48; 120; 48; 56; 13; 10; 57; 46; 54; 95; 115; 117; 112; 112; 32; 61; 32; 49; 10; 77; 97; 120; 84; 115; 100; 114; 95; 57; 46; 54; 32; 61; 32; 49; 53; 10; 80; 114; 109; 84; 101; 120; 116; 61; 49; 10; 84; 101; 120; 116; 40; 48; 41; 61; 34; 111; 102; 102; 34; 10; 84; 101; 120; 116; 40; 45; 49; 41; 61; 34; 111; 92; 10; 110; 34; 10; 69; 110; 100; 80; 114; 109; 84; 101; 120; 116; 10; 69; 120; 116; 85; 115; 101; 114; 80; 114; 109; 68; 97; 116; 97; 61; 55; 32; 34; 109; 111; 100; 101; 34; 10; 66; 105; 116; 65; 114; 101; 97; 40; 49; 45; 50; 41; 32; 48; 32; 48; 45; 51; 10; 80; 114; 109; 95; 84; 101; 120; 116; 95; 82; 101; 102; 61; 49; 10; 86; 105; 115; 105; 98; 108; 101; 61; 48; 10; 69; 110; 100; 69; 120; 116; 85; 115; 101; 114; 80; 114; 109; 68; 97; 116; 97; 10; 69; 120; 116; 85; 115; 101; 114; 80; 114; 109; 68; 97; 116; 97; 61; 56; 32; 34; 108; 101; 118; 101; 108; 34; 10; 83; 105; 103; 110; 101; 100; 49; 54; 32; 45; 53; 32; 45; 53; 44; 48; 44; 53; 10; 69; 110; 100; 69; 120; 116; 85; 115; 101; 114; 80; 114; 109; 68; 97; 116; 97; 10; 69; 120; 116; 95; 85; 115; 101; 114; 95; 80; 114; 109; 95; 68; 97; 116; 97; 95; 67; 111; 110; 115; 116; 40; 48; 41; 61; 48; 120; 48; 48; 44; 48; 120; 48; 49; 44; 92; 10; 50; 10; 69; 120; 116; 95; 85; 115; 101; 114; 95; 80; 114; 109; 95; 68; 97; 116; 97; 95; 82; 101; 102; 40; 49; 41; 61; 55; 10; 85; 115; 101; 114; 95; 80; 114; 109; 95; 68; 97; 116; 97; 95; 76; 101; 110; 61; 49; 10; 77; 111; 100; 117; 108; 101; 61; 34; 105; 110; 34; 32; 48; 120; 49; 48; 10; 51; 10; 69; 120; 116; 95; 77; 111; 100; 117; 108; 101; 95; 80; 114; 109; 95; 68; 97; 116; 97; 95; 76; 101; 110; 61; 50; 10; 69; 120; 116; 95; 85; 115; 101; 114; 95; 80; 114; 109; 95; 68; 97; 116; 97; 95; 82; 101; 102; 40; 48; 41; 61; 56; 10; 73; 110; 102; 111; 95; 84; 101; 120; 116; 61; 34; 120; 34; 10; 69; 110; 100; 77; 111; 100; 117; 108; 101; 10; 77; 111; 100; 117; 108; 101; 32; 61; 32; 34; 111; 117; 116; 34; 32; 48; 120; 50; 48; 44; 48; 120; 50; 49; 10; 52; 10; 69; 110; 100; 77; 111; 100; 117; 108; 101; 10; 83; 108; 111; 116; 68; 101; 102; 105; 110; 105; 116; 105; 111; 110; 10; 83; 108; 111; 116; 40; 49; 41; 61; 34; 115; 34; 32; 51; 32; 51; 45; 52; 10; 83; 108; 111; 116; 40; 50; 41; 61; 34; 116; 34; 32; 52; 32; 52; 44; 57; 10; 69; 110; 100; 83; 108; 111; 116; 68; 101; 102; 105; 110; 105; 116; 105; 111; 110; 10].
+Example C19_file_example :
+  match peg_parse ex_file with
+  | Ok (Some t) =>
+      match decode_file t with
+      | Some stmts =>
+          file_okb stmts = true /\ ids_unique stmts = true /\ modules_first stmts = true /\
+          nodupb (set_targets (sets_of stmts)) = true /\ shapeb t = true /\
+          match interp t with
+          | POk (d, w) =>
+              d_flag d BF_modular_station = true /\ d_num d NF_max_modules = 8 /\ d_speeds d = 2 /\
+              d_num d NF_max_tsdr_b9600 = 15 /\ w = 1 /\
+              map (fun m => (m_name m, m_config m, m_ref m, up_len (m_prm m), length (up_ref (m_prm m)))) (d_modules d) =
+                [([105; 110], [16], Some 3, 2, 1%nat); ([111; 117; 116], [32; 33], Some 4, 0, 0%nat)] /\
+              map (fun sl => (sl_number sl, sl_default sl, sl_allowed sl)) (d_slots d) = [(1, 0%nat, [0%nat; 1%nat]); (2, 1%nat, [1%nat])] /\
+              up_const (d_prm d) = [(0, [0; 1; 2])] /\
+              map (fun r => (fst r, pd_name (snd r), pd_type (snd r), pd_constraint (snd r), pd_text (snd r), pd_visible (snd r))) (up_ref (d_prm d)) =
+                [(1, [109; 111; 100; 101], DBitArea 1 2, CMinMax 0 3, Some [([111; 102; 102], 0); ([111; 110], -1)], false)]
+          | _ => False
+          end
+      | None => False
       end
   | _ => False
   end.
